@@ -35,7 +35,8 @@ CallClause(tr, i) ==
     LET c == tr.calls[i]
         impl == FirstNamed(tr.schema.impls, c.impl)
         exp == LayoutOf(tr.schema, impl, tr.unroll = 1) IN
-    IF c.raised = 1 THEN "raised" ELSE FirstDiff(exp, c.ret)
+    IF ~Layable(tr.schema, impl, tr.unroll = 1) THEN (IF c.raised = 1 THEN "ok" ELSE "laid-out-a-binding-that-must-be-refused")
+    ELSE IF c.raised = 1 THEN "raised" ELSE FirstDiff(exp, c.ret)
 
 TVerdict(tr) == [id |-> tr.id, clauses |-> [i \in 1..Len(tr.calls) |-> CallClause(tr, i)]]
 
